@@ -143,7 +143,7 @@ def points_in_poly_model(kns):
     return points_in_poly
 
 
-def run_filter(eng, n, npts, inverted):
+def run_filter(eng, n, npts, inverted, xint=False):
     kns = kernel()
     # the REAL python wrapper dclab.external.skimage.pnpoly.points_in_poly
     # on top of the model of the compiled _points_in_poly
@@ -152,7 +152,16 @@ def run_filter(eng, n, npts, inverted):
     ns = shadow(PF, np=SymNP(), points_in_poly=pn["points_in_poly"])
     xs, ys, pts = sym_polygon(eng, n, npts)
     pf = make_filter(ns, xs, ys, inverted)
-    datax = SArr([p[0] for p in pts], float)
+    if xint:
+        # integer-typed x data (fl1_max, nevents, index, frame, ...) with
+        # fractional y data
+        from vf.symx import SInt
+        ix = [eng.int("ipx%d" % k) for k in range(npts)]
+        for (px, py), i in zip(pts, ix):
+            eng.assume(px.e == z3.ToReal(i.e))
+        datax = SArr(list(ix), np.int64)
+    else:
+        datax = SArr([p[0] for p in pts], float)
     datay = SArr([p[1] for p in pts], float)
     f = pf.filter(datax, datay)
     eng.prove(z3.BoolVal(len(f) == npts), "length")
@@ -328,7 +337,8 @@ def run_case(name, params):
         eng.explore(lambda e: run_kernel(e, params["n"], params["prefix"]))
     else:
         eng.explore(lambda e: run_filter(e, params["n"], params["npts"],
-                                         params["inverted"]))
+                                         params["inverted"],
+                                         params.get("xint", False)))
     st = eng.stats()
     # an infeasible prefix (e.g. contradicting sign pattern) is fine
     st["allow_vacuous"] = params["kind"] == "kernel" and bool(
@@ -351,6 +361,8 @@ def cases(tier, seed):
         for inv in (False, True):
             out.append(("filter n=%d pts=%d inverted=%s" % (n, npts, inv),
                         dict(kind="filter", n=n, npts=npts, inverted=inv)))
+    out.append(("filter n=3 pts=1 integer x data", dict(
+        kind="filter", n=3, npts=1, inverted=False, xint=True)))
     out.sort(key=lambda c: -c[1]["n"])
     for n in range(1, (3 if tier == "quick" else 4) + 1):
         for second in (None, "second", "first"):
@@ -477,8 +489,11 @@ def replay(case, params, v):
                                points=np.array(poly), unique_id=987654,
                                inverted=params["inverted"])
             try:
-                got = pf.filter(np.array([p[0] for p in pts]),
-                                np.array([p[1] for p in pts]))
+                dx = np.array([p[0] for p in pts])
+                if params.get("xint"):
+                    dx = np.array([int(round(p[0])) for p in pts],
+                                  dtype=np.int64)
+                got = pf.filter(dx, np.array([p[1] for p in pts]))
             finally:
                 PolygonFilter.remove(pf.unique_id)
         for k, pt in enumerate(pts):
